@@ -77,7 +77,62 @@ pub fn witness_delete_after_compaction() -> Case {
     }
 }
 
+/// A table WITH a primary key: 3-5 inserts with interleaving key ranges, so that one compaction
+/// pass merges >= 3 row-sets (odd and even counts), then key predicates pushed into the scan
+/// (`DELETE WHERE pk = k`, a key-range DELETE, `SELECT WHERE pk = k`) and the ordered scan, in the
+/// setup after a compaction pass (sequential) and/or concurrently with one.
+fn gen_keyed_case(r: &mut Rng, k: usize) -> Case {
+    let n_ins = r.range(3, 5) as i32;
+    let per = r.range(2, 3) as i32;
+    let mut setup = vec![Cmd::Create("t51".into())];
+    for i in 0..n_ins {
+        // row-set i holds i+1, i+1+n, i+1+2n, ...: every row-set spans the whole key range
+        setup.push(Cmd::Insert("t51".into(), (0..per).map(|j| i + 1 + j * n_ins).collect()));
+    }
+    let max = n_ins * per;
+    let probe = |r: &mut Rng| r.range(1, max as i64) as i32;
+    let mut sess = |r: &mut Rng| -> Vec<Cmd> {
+        let mut v = vec![];
+        for _ in 0..r.range(2, 3) {
+            v.push(match r.below(5) {
+                0 | 1 => Cmd::Delete("t51".into(), "eq".into(), probe(r)),
+                2 => Cmd::Delete("t51".into(), "bt".into(), probe(r)),
+                3 => Cmd::SelEq("t51".into(), probe(r)),
+                _ => Cmd::SelOrd("t51".into()),
+            });
+        }
+        v
+    };
+    let mut actors = vec![];
+    if r.chance(1, 2) {
+        // compaction first (sequentially), then the key predicates
+        setup.push(Cmd::Compact);
+        setup.push(Cmd::SelOrd("t51".into()));
+        actors.push(sess(r));
+        actors.push(vec![Cmd::SelEq("t51".into(), probe(r)), Cmd::SelOrd("t51".into())]);
+    } else {
+        actors.push(vec![Cmd::Compact]);
+        actors.push(sess(r));
+        if r.chance(1, 2) {
+            actors.push(sess(r));
+        }
+    }
+    Case {
+        id: format!("k{k}"),
+        gate: gates(),
+        setup,
+        actors,
+        sched: vec![],
+        rng: r.next() | 1,
+        sticky: *r.pick(&[0, 50, 80]),
+        script: vec![],
+    }
+}
+
 fn gen_case(r: &mut Rng, k: usize) -> Case {
+    if k % 3 == 2 {
+        return gen_keyed_case(r, k);
+    }
     let mut setup = base_setup();
     if r.chance(1, 3) {
         setup.push(Cmd::Delete("t1".into(), "eq".into(), 2));
